@@ -1321,18 +1321,23 @@ example : (match polymorphRecord [([.int 0, .int 1], 3)] [.int 1, .int 0] [((.in
 example : ((makeQuadratic [] .spin 0 witnessRaw [(.int 0, .int 1)]).isSome, (makeQuadratic [] .spin (-1) witnessRaw [(.int 0, .int 1)]).isSome,
            (makeQuadratic [] .binary (3/4) witnessRaw [(.int 0, .int 1)]).isSome) = (true, true, true) := by decide +kernel
 
-/-- the hypothesis of `sample_poly_record_end_to_end_binary` is met: a child returning a consistent and an inconsistent
-    0/1 record over the variables of `make_quadratic(2·x0x1x2 − x0 − x1 − x2, 2)`; reported: the polynomial's energies, flags 1 and 0 -/
-example : ((samplePolyRecord (fun _ _ => { vars := [.int 0, .int 1, .int 2, .str "0*1"], names := ["num_occurrences"],
-      rows := [⟨[1, 1, 1, 1], 0, [1]⟩, ⟨[1, 1, 0, 0], 0, [2]⟩], info := [], vt := .binary })
-    .binary witnessRaw [(.int 0, .int 1)] [.int 0, .int 1, .int 2] 2 false false none).map
+/-- a consistent and an inconsistent 0/1 record over the variables of `make_quadratic(2·x0x1x2 − x0 − x1 − x2, 2, BINARY)` -/
+def witnessRespB : SampleSetM :=
+  { vars := [.int 0, .int 1, .int 2, .str "0*1"], names := ["num_occurrences"],
+    rows := [⟨[1, 1, 1, 1], 0, [1]⟩, ⟨[1, 1, 0, 0], 0, [2]⟩], info := [], vt := .binary }
+
+/-- ±1 records with one value per variable of the SPIN model -/
+def witnessRespS : SampleSetM :=
+  { vars := [.int 0, .int 1, .int 2, .str "0*1", .str "aux0,1"], names := [],
+    rows := [⟨[1, 1, 1, 1, -1], 0, []⟩, ⟨[1, 1, -1, -1, 1], 0, []⟩], info := [], vt := .spin }
+
+/-- the hypothesis of `sample_poly_record_end_to_end_binary` is met; reported: the polynomial's energies, flags 1 and 0 -/
+example : ((samplePolyRecord (fun _ _ => witnessRespB) .binary witnessRaw [(.int 0, .int 1)] [.int 0, .int 1, .int 2] 2 false false none).map
       (fun r => r.toOption.map (fun out => out.rows.map (fun ro => (ro.energy, ro.sat))))) = some (some [(-1, 1), (-2, 0)]) := by
   decide +kernel
 
-/-- the same for `sample_poly_record_end_to_end_spin` (±1 records with one value per variable, `order` = the polynomial's variables) -/
-example : ((samplePolyRecord (fun _ _ => { vars := [.int 0, .int 1, .int 2, .str "0*1", .str "aux0,1"], names := [],
-      rows := [⟨[1, 1, 1, 1, -1], 0, []⟩, ⟨[1, 1, -1, -1, 1], 0, []⟩], info := [], vt := .spin })
-    .spin witnessRaw [(.int 0, .int 1)] [.int 0, .int 1, .int 2] 2 true true none).map
+/-- the same for `sample_poly_record_end_to_end_spin` (`order` = the polynomial's variables; `discard_unsatisfied` drops the second record) -/
+example : ((samplePolyRecord (fun _ _ => witnessRespS) .spin witnessRaw [(.int 0, .int 1)] [.int 0, .int 1, .int 2] 2 true true none).map
       (fun r => r.toOption.map (fun out => out.rows.map (fun ro => (ro.energy, ro.sat))))) = some (some [(-1, 1)])
     ∧ polyVars (normPoly .spin witnessRaw) = [.int 0, .int 1, .int 2] := by
   decide +kernel
